@@ -63,10 +63,19 @@ type Company struct {
 }
 
 type Pet struct {
-	ID     uint
-	UserID uint
-	Name   string
+	ID        uint
+	UserID    uint
+	ShelterID uint
+	Name      string
 	Toy    *Toy `gorm:"polymorphic:Owner"`
+}
+
+// Shelter is a second owner of pets: its parse writes a back-reference into the
+// same Pet schema as User's, so the lock around that write is exercised.
+type Shelter struct {
+	ID   uint
+	Name string
+	Pets []Pet
 }
 
 type Language struct {
@@ -95,7 +104,8 @@ type Plain struct {
 const ddl = `
 CREATE TABLE users (id integer primary key, name text, age integer, company_id integer, audit_created_by text, audit_note text);
 CREATE TABLE companies (id integer primary key, name text);
-CREATE TABLE pets (id integer primary key, user_id integer, name text);
+CREATE TABLE pets (id integer primary key, user_id integer, shelter_id integer, name text);
+CREATE TABLE shelters (id integer primary key, name text);
 CREATE TABLE languages (code text primary key, name text);
 CREATE TABLE user_languages (user_id integer, language_code text, primary key (user_id, language_code));
 CREATE TABLE toys (id integer primary key, owner_id integer, owner_type text, name text);
@@ -103,7 +113,7 @@ CREATE TABLE gadgets (id integer primary key, kind text, tags text);
 CREATE TABLE plains (id integer primary key, a integer);
 `
 
-var allTables = []string{"users", "companies", "pets", "languages", "user_languages", "toys", "gadgets", "plains"}
+var allTables = []string{"users", "companies", "shelters", "pets", "languages", "user_languages", "toys", "gadgets", "plains"}
 
 func seedSQL() []string {
 	var out []string
@@ -112,8 +122,9 @@ func seedSQL() []string {
 		out = append(out,
 			fmt.Sprintf("INSERT INTO companies (id,name) VALUES (%d,'co%d')", b, t),
 			fmt.Sprintf("INSERT INTO users (id,name,age,company_id,audit_created_by,audit_note) VALUES (%d,'u%d',%d,%d,'seed','n')", b, t, 20+t, b),
-			fmt.Sprintf("INSERT INTO pets (id,user_id,name) VALUES (%d,%d,'p%da')", b, b, t),
-			fmt.Sprintf("INSERT INTO pets (id,user_id,name) VALUES (%d,%d,'p%db')", b+1, b, t),
+			fmt.Sprintf("INSERT INTO shelters (id,name) VALUES (%d,'sh%d')", b, t),
+			fmt.Sprintf("INSERT INTO pets (id,user_id,shelter_id,name) VALUES (%d,%d,%d,'p%da')", b, b, b, t),
+			fmt.Sprintf("INSERT INTO pets (id,user_id,shelter_id,name) VALUES (%d,%d,%d,'p%db')", b+1, b, b, t),
 			fmt.Sprintf("INSERT INTO languages (code,name) VALUES ('l%d','lang%d')", t, t),
 			fmt.Sprintf("INSERT INTO user_languages (user_id,language_code) VALUES (%d,'l%d')", b, t),
 			fmt.Sprintf("INSERT INTO toys (id,owner_id,owner_type,name) VALUES (%d,%d,'users','t%d')", b, b, t),
@@ -187,6 +198,10 @@ var ops = map[byte]opFn{
 		err := db.Model(&User{ID: uint(100 * (tid + 1))}).Association("Languages").Find(&ls)
 		n := db.Model(&User{ID: uint(100 * (tid + 1))}).Association("Pets").Count()
 		return fmt.Sprintf("err=%v langs=%s pets=%d", err, js(ls), n)
+	},
+	'H': func(db *gorm.DB, tid int) string { // second owner of the Pet schema
+		var ss []Shelter
+		return res(db.Preload("Pets").Where("id = ?", 100*(tid+1)).Find(&ss), ss)
 	},
 	'G': func(db *gorm.DB, tid int) string { // unrelated model with a serializer field
 		var gs []Gadget
@@ -274,7 +289,7 @@ func openEnv(p Program) (*gorm.DB, *h.Env) {
 	return db, env
 }
 
-var allModels = []interface{}{&User{}, &Company{}, &Pet{}, &Language{}, &Toy{}, &Gadget{}, &Plain{}}
+var allModels = []interface{}{&User{}, &Company{}, &Shelter{}, &Pet{}, &Language{}, &Toy{}, &Gadget{}, &Plain{}}
 
 // dumpSchemas renders what later operations can observe of the cached schemas.
 func dumpSchemas(db *gorm.DB) string {
@@ -502,7 +517,7 @@ func programs(tier string, race bool) []Program {
 			ps = append(ps, p)
 		}
 	}
-	single := []string{"J", "P", "C", "N", "K", "U", "D", "A", "G", "L", "F"}
+	single := []string{"J", "P", "C", "N", "K", "U", "D", "A", "G", "L", "F", "H"}
 	b2, b3 := 2, 1
 	if tier == "thorough" {
 		b2, b3 = 3, 2
@@ -534,7 +549,7 @@ func programs(tier string, race bool) []Program {
 		add(Program{Threads: pr, Mode: "real", Bound: b3})
 	}
 	// three threads
-	three := [][]string{{"J", "C", "P"}, {"P", "N", "K"}, {"J", "J", "J"}, {"C", "F", "A"}, {"K", "C", "N"}, {"G", "L", "J"}, {"P", "P", "C"}, {"U", "D", "P"}}
+	three := [][]string{{"H", "P", "N"}, {"J", "C", "P"}, {"P", "N", "K"}, {"J", "J", "J"}, {"C", "F", "A"}, {"K", "C", "N"}, {"G", "L", "J"}, {"P", "P", "C"}, {"U", "D", "P"}}
 	for _, t := range three {
 		add(Program{Threads: t, Mode: "dry", Bound: b3})
 		add(Program{Threads: t, Mode: "real", Bound: b3})
